@@ -242,6 +242,8 @@ class DocOpts:
         self.op_kinds = ("query",)
         self.introspection = 0.0
         self.p_unused_style = 0.0
+        self.force_typename = False
+        self.p_sub_repeat = 0.15
         self.__dict__.update(kw)
 
 
@@ -350,7 +352,7 @@ class DocGen:
         return dirs
 
     # -- selections
-    def gen_field(self, parent, depth, scope, force=None):
+    def gen_field(self, parent, depth, scope, force=None, no_directives=False):
         rng = self.rng
         fields = self.s.fields_of(parent)
         names = list(fields)
@@ -364,11 +366,11 @@ class DocGen:
         if fname == "__typename":
             sel = FieldSel("__typename")
             sig = ("__typename", "", "String!")
-            sel.directives = self.gen_skipinclude(scope)
+            sel.directives = [] if no_directives else self.gen_skipinclude(scope)
         else:
             f = fields[fname]
             sel = FieldSel(fname, args=self.gen_args(f.args, scope))
-            sel.directives = self.gen_skipinclude(scope)
+            sel.directives = [] if no_directives else self.gen_skipinclude(scope)
             sig = (fname, ",".join(sorted("%s:%s" % (n, print_value(v)) for n, v in sel.args)), tstr(f.type))
             tn = named_of(f.type)
             if self.s.is_composite(tn):
@@ -386,9 +388,9 @@ class DocGen:
             sel.alias = key
         return sel
 
-    def clone_field(self, sel, parent, depth, scope):
+    def clone_field(self, sel, parent, depth, scope, no_directives=False):
         """Re-select the same field (same key, same args) with a fresh sub-selection."""
-        c = FieldSel(sel.name, sel.alias, list(sel.args), self.gen_skipinclude(scope))
+        c = FieldSel(sel.name, sel.alias, list(sel.args), [] if no_directives else self.gen_skipinclude(scope))
         for _, v in sel.args:
             self._note_vars(v, scope)
         if sel.selset is not None:
@@ -434,6 +436,10 @@ class DocGen:
                     out.append(self.clone_field(prev, parent, depth, scope))
             else:
                 out.append(self.gen_field(parent, depth, scope))
+        if o.force_typename and not any(x.kind == "field" and x.name == "__typename" and not x.alias
+                                        and not x.directives for x in out):
+            self.keys["__typename"] = ("__typename", "", "String!")
+            out.insert(rng.randrange(len(out) + 1), FieldSel("__typename"))
         return out
 
     def gen_spread(self, parent, depth, scope):
@@ -479,7 +485,18 @@ class DocGen:
             kind = rng.choice(kinds)
             scope = {"vars": set(), "spreads": set()}
             self.budget = o.max_fields
-            selset = self.gen_selset(roots[kind], 1, scope)
+            if kind == "subscription":
+                # exactly one response key at the root (possibly selected twice, or through fragments)
+                f0 = self.gen_field(roots[kind], 1, scope, force=rng.choice(list(self.s.fields_of(roots[kind]))),
+                                    no_directives=True)
+                selset = [f0]
+                r = rng.random()
+                if r < o.p_sub_repeat:
+                    selset.append(self.clone_field(f0, roots[kind], 1, scope, no_directives=True))
+                elif r < o.p_sub_repeat + 0.15:
+                    selset = [InlineFrag(rng.choice([None, roots[kind]]), [], selset)]
+            else:
+                selset = self.gen_selset(roots[kind], 1, scope)
             if kind == "query" and rng.random() < o.introspection:
                 selset.insert(rng.randrange(len(selset) + 1), self.gen_introspection())
             name = names[i] if (n_ops > 1 or rng.random() < 0.5) else None
